@@ -51,9 +51,11 @@ def fs(*parts):
 
 
 # ---- references (written from the property statement; PA = list of matched pairs) ----------------------------------------
-def ref_matching_array():
+def ref_matching_array(as_int=False):
     b = BV('p', PA)
     i = BV('i', RANGE(A(M, 'num_students')))
+    if as_int:      # the same table kept as integers (project ids start at 1, so 0 still means unassigned)
+        return ACC(('array', A(M, 'num_students'), i, C(0)), (('setidx', A(b, 'student_index'), A(b, 'projectID'), ((b, TRUE),)),))
     return ACC(('array', A(M, 'num_students'), i, C('0')), (('setidx', A(b, 'student_index'), fs(A(b, 'projectID')), ((b, TRUE),)),))
 
 
@@ -95,11 +97,15 @@ def references():
     k2 = BV('k', RANGE(A(M, 'num_lecturers')))
     k0 = BV('i', RANGE(A(M, 'num_students')))
     marr = ref_matching_array()
+    marri = ref_matching_array(True)
+    k0i = BV('i', RANGE(A(M, 'num_students')))
     return {
         'matching': [('sjoin', C(' '), marr)],
         'size': [CALL(S('len'), [PA]), BIN('Sub', A(M, 'num_students'), CALL(A(marr, 'count'), [C('0')])), ('sum', ((b, TRUE),), C(1)),
                  ('sum', ((k0, CMP('NotEq', I(marr, k0), C('0'))),), C(1)), CALL(S('len'), [('comp', ((k0, CMP('NotEq', I(marr, k0), C('0'))),), k0)]),
-                 ('distinct', ((b, TRUE),), A(b, 'student_index'))],
+                 ('distinct', ((b, TRUE),), A(b, 'student_index')),
+                 BIN('Sub', A(M, 'num_students'), CALL(A(marri, 'count'), [C(0)])), ('sum', ((k0i, CMP('NotEq', I(marri, k0i), C(0))),), C(1)),
+                 CALL(S('len'), [('comp', ((k0i, CMP('NotEq', I(marri, k0i), C(0))),), k0i)])],
         'cost': [('tuple', (ref_sum('rank_student'), ref_sum('rank_lecturer', guard_attr='rank_lecturer')))],
         'cost_sq': [('tuple', (ref_sum('rank_student', True), ref_sum('rank_lecturer', True, 'rank_lecturer')))],
         'degree': [('max0', ((b, TRUE),), A(b, 'rank_student'))],
